@@ -25,8 +25,13 @@ ALL = [f"C{i:02d}" for i in range(1, 21)]
 def main():
     import glob
 
+    import subprocess
+
+    tracked = set(subprocess.run(["git", "-C", HERE, "ls-files", "harness"], capture_output=True, text=True).stdout.split())
     for f in sorted(glob.glob(os.path.join(HERE, "manifest_parts", "C*.json"))):
         pid = os.path.basename(f)[:-5]
+        if f"harness/{pid.lower()}.py" not in tracked:
+            continue  # a builder's work in progress: not integrated (committed) yet
         d = json.load(open(f))
         CHECKS[pid] = (d["category"], d["text"], d["level_note"], d["technique"], d.get("design_ref", "7 (%s)" % pid))
     checks = []
